@@ -77,24 +77,24 @@ Proof.
   apply v_inq0; auto.
 Qed.
 
-Ltac view_tac := constructor; autorewrite with xs xf; auto; try tauto.
+Ltac view_tac := constructor; xs; autorewrite with xf; xs; auto; try tauto.
 
 (* ---- the events that do not touch what the invariants look at ----------------------- *)
 Lemma nparse_cons c r st : nparse (set_running (c :: r) st) = (b2n (is_parse c) + length (filter is_parse r))%nat.
-Proof. unfold nparse. autorewrite with xs. simpl. destruct (is_parse c); reflexivity. Qed.
+Proof. unfold nparse. xs. simpl. destruct (is_parse c); reflexivity. Qed.
 
 Lemma view_del_run c st st' : del_run c st = Some st' -> cjobs c = [] -> is_parse c = false -> view_eq st st'.
 Proof.
   intros H Hj Hp. destruct (del_run_spec _ _ _ H) as (l1 & l2 & E & ->).
-  constructor; autorewrite with xs; auto; try tauto.
+  constructor; xs; auto; try tauto.
   - rewrite E, !run_jobs_app, run_jobs_cons, Hj. reflexivity.
-  - unfold nparse. autorewrite with xs. rewrite E, !filter_len_app. simpl. rewrite Hp. reflexivity.
+  - unfold nparse. xs. rewrite E, !filter_len_app. simpl. rewrite Hp. reflexivity.
 Qed.
 
 Lemma view_add_run c st : cjobs c = [] -> is_parse c = false -> view_eq st (add_run c st).
 Proof.
-  intros Hj Hp. constructor; autorewrite with xs xf; auto; try tauto.
-  - unfold add_run. autorewrite with xs. rewrite run_jobs_cons, Hj. reflexivity.
+  intros Hj Hp. constructor; xs; autorewrite with xf; xs; auto; try tauto.
+  - unfold add_run. xs. rewrite run_jobs_cons, Hj. reflexivity.
   - unfold add_run. rewrite nparse_cons, Hp. reflexivity.
 Qed.
 
@@ -146,7 +146,7 @@ Proof.
   unfold reorder. intros I H. destruct (selects TReorder st); [|discriminate].
   destruct (qmin o_base pos_lt (x_reord_q st)) as [o|]; [|discriminate].
   destruct (remove_one oblk_eqb o (x_reord_q st)) as [q|]; [|discriminate].
-  autorewrite with xs in H.
+  xs in H.
   destruct (x_order_q st) as [|ord rest]; [inversion H; subst; eapply inv_view; [|eauto]; view_tac|].
   destruct (pos_lt (o_base o) (h_base ord)); [inversion H; subst; eapply inv_view; [|eauto]; view_tac|].
   repeat match type of H with context [if ?c then _ else _] => destruct c end;
